@@ -604,3 +604,17 @@ Fixpoint sort_insert (x : key * (Q * wtype)) (l : wdict) : wdict :=
   end.
 (* stable insertion sort: fold from the right, an element goes BEFORE the first y with key x <= key y *)
 Definition final_sort (d : wdict) : wdict := fold_right sort_insert [] d.
+
+(* ================================================================================
+   (g) the public entry point generate_qpd_weights(qpd_bases, num_samples):
+       probabilities of a basis = |coeffs| / kappa, kappa = sum |coeffs|   (QPDBasis.coeffs setter, qpd_basis.py)
+       result = dict(sorted(_generate_qpd_weights(probabilities, num_samples).items(), key=...))                     *)
+Definition basis_probs (coeffs : list Q) : list Q :=
+  let kappa := qsum (map Qabs coeffs) in map (fun c => Qabs c / kappa) coeffs.
+
+Definition generate_qpd_weights (bases : list (list Q)) (perms : list (list nat)) (N : num) (tape : list nat)
+  : option (res wdict) :=
+  match gen_weights (map basis_probs bases) perms N tape with
+  | None => None
+  | Some r => Some (res_map final_sort r)
+  end.
